@@ -773,6 +773,30 @@ class World:
                 raise SystemExit(a.get('code', 5))
             elif kind == 'kbint':
                 raise KeyboardInterrupt()
+            elif kind == 'standin_stdout':
+                # the test puts a minimal stand-in (write / writelines, no flush) in place of
+                # sys.stdout for its own duration, a cleanup puts the stream back
+                if not self.spec.get('ref_mode'):
+                    class _WriteOnly:
+                        def __init__(self, real):
+                            self._real = real
+
+                        def write(self, text):
+                            return self._real.write(text)
+
+                        def writelines(self, lines):
+                            # (the colourising formatter writes its reports with writelines)
+                            return self._real.writelines(lines)
+                    saved = sys.stdout
+                    sys.stdout = _WriteOnly(saved)
+                    test.addCleanup(setattr, sys, 'stdout', saved)
+            elif kind == 'mock_time':
+                # the test patches the clock with a bare mock until its cleanups run
+                if not self.spec.get('ref_mode'):
+                    from unittest import mock
+                    patcher = mock.patch('time.time')
+                    patcher.start()
+                    test.addCleanup(patcher.stop)
             elif kind == 'chdir':
                 # the test changes the working directory and does not go back
                 if not self.spec.get('ref_mode'):
